@@ -307,6 +307,28 @@ def _one(args):
         shutil.rmtree(d, ignore_errors=True)
 
 
+def run_for(prop, repo_root='/repo', functions=()):
+    """Metamorphic run for one property (thorough tier): every transformation on every file its rules read (*functions*: refs of the
+    functions the check analysed), only this property's check."""
+    sys.path.insert(0, VERIF)
+    from sa.model import Repo
+    repo = Repo(repo_root)
+    final = set(getattr(repo, 'final_attrs', set()))
+    files = {f.split('::')[0] for f in functions}
+    files = sorted(f for f in files if os.path.exists(os.path.join(repo_root, f)))
+    items = [(f, k, [prop], repo_root, final) for f in files for k in KINDS]
+    with ProcessPoolExecutor(max_workers=min(16, os.cpu_count() or 4)) as ex:
+        rows = list(ex.map(_one, items))
+    return {
+        'files': files,
+        'transformations': KINDS,
+        'variants': len(rows),
+        'silent': sum(1 for r in rows if r[2] == 'silent'),
+        'no_change': sum(1 for r in rows if r[2] == 'no-change'),
+        'noisy': [f'{r[0]} {r[1]}: {r[3][:200]}' for r in rows if r[2] in ('NOISY', 'transform-error')],
+    }
+
+
 def main():
     import argparse
     ap = argparse.ArgumentParser()
